@@ -8,3 +8,6 @@ import WowVerif.Props.C19
 #print axioms Wv.C19.no_dangling
 #print axioms Wv.C19.fresh_handle
 #print axioms Wv.C19.lock_graph_acyclic
+#print axioms Wv.C19.archive_name_within_buffer
+#print axioms Wv.C19.file_name_within_max_path
+#print axioms Wv.C19.find_data_within_array
